@@ -8,7 +8,7 @@ own float formula — is at least that threshold.  With never-merge every cluste
 -/
 import BBProps.C01
 import BBProofs.Merges
-import BBProofs.GenEq
+import BBProofs.GenEq3
 
 namespace BB
 
@@ -151,5 +151,22 @@ theorem C03_code_accept_sound (expf : Rat → Rat) (c : Crit) (tol t : Rat) (new
   rw [gen_dispatch, getMergeFn_name, gen_accept expf ⟨c, tol⟩ t new old nom w w' w'' hn ho hO] at h
   have h' : accept ⟨c, tol⟩ (tabOf expf) t new old nom = true := by simpa using h
   exact C03_accept_sound ⟨c, tol⟩ _ t new old nom h2 h'
+
+
+/-- code: a leaf cluster grows only through `merge_subcluster`, and whenever the translated `merge_subcluster` returns
+`True` (first element of its result) the statistic the criterion promises, of the merged summary — which is what the
+object then holds — is at least the threshold -/
+theorem C03_code_merge_bound (expf : Rat → Rat) (c : Crit) (tol thr : Rat) (a b : Clu) (child scent schild : PV)
+    (ha : CluOk a) (hb : CluOk b) (hlen : a.ls.length = b.ls.length) (hn : a.n + b.n < 2 ^ 53)
+    (hnew : SumOk (a.mergedSummary b)) (hold : SumOk a.summary) (hO : 1 ≤ a.n) (h2 : 1 ≤ b.n)
+    (rest : List PV)
+    (h : BBGen._BFSubcluster_merge_subcluster expf (bufOf a) (PV.arr .u8 (pack a.cent)) child (PV.arr .big a.ids)
+          (bufOf b) scent schild (PV.arr .big b.ids) (PV.flt (some thr)) (objOf expf ⟨c, tol⟩) = PV.bool true :: rest) :
+    rest = stateOf (a.merge b) child ∧ ∃ v, stat c (a.mergedSummary b) = some v ∧ thr ≤ v := by
+  rw [gen_merge_subcluster expf ⟨c, tol⟩ thr a b child scent schild ha hb hlen hn hnew hold hO] at h
+  by_cases hacc : accept ⟨c, tol⟩ (tabOf expf) thr (a.mergedSummary b) a.summary b.summary = true
+  · simp only [hacc, if_true, List.cons.injEq, true_and] at h
+    exact ⟨h.symm, C03_accept_sound ⟨c, tol⟩ _ thr _ _ _ (by show 2 ≤ a.n + b.n; omega) hacc⟩
+  · simp [hacc] at h
 
 end BB
